@@ -180,11 +180,12 @@ func checkDefs() map[string]CheckDef {
 			each("H_C05", l(14, 16), l(5), l(0)),
 			each("H_C05", tplBoundary, l(4), l(0)), each("H_C05", tplInterior, l(4), l(0)),
 			each("H_C05_chunk", l(1, 3, 5, 11, 12, 29, 32, 34, 35, 44, 46, 49, 52), l(3)),
-			each("H_C05_at", l(7, 10, 12, 33, 55), l(3), l(2, 300)), each("H_C05_at", l(1, 3, 5, 9, 56), l(3), l(7))),
+			each("H_C05_at", l(7, 10, 12, 33, 55), l(3), l(2, 300)), each("H_C05_at", l(1, 3, 5, 9, 56), l(3), l(7)),
+			each("H_C05_cap", l(71), l(3), l(8, 2, 0), l(0, 1, 2, 4)), each("H_C05_cap", l(11, 34), l(3), l(8), l(0, 1))),
 		cat(each("H_C05", l(1, 2, 3, 4, 5, 6, 7, 8, 9, 10, 11, 12), l(6), l(0, 1, 2)), each("H_C05", l(1, 3, 4, 9, 11), l(7), l(0)),
 			each("H_C05", tplBoundary, l(6), l(0)), each("H_C05", tplInterior, l(6), l(0)), each("H_C05_chunk", l(1, 3, 11, 44, 46, 49, 52), l(5)),
 			each("H_C05", l(13), l(9, 10), l(0))),
-		"ParseSIPMsg one-shot on 12 header templates W=4 (6-7), 9 boundary and 13 interior templates W=4 (6), repeated Contact headers, fully symbolic 7 (10)-byte header block; the same layout facts on an object resumed at one symbolic cut (13 templates W=3 (5)): containment, first-line order, header order / own-line / trimming, nesting of From/To/CSeq/Call-ID/Contact/PAI sub-fields, body and raw-message extents; the same for messages at offsets 2, 7, 300 under all 8 flag sets (symbolic), one-shot or resumed at a symbolic cut",
+		"ParseSIPMsg one-shot on 12 header templates W=4 (6-7), 9 boundary and 13 interior templates W=4 (6), repeated Contact headers, fully symbolic 7 (10)-byte header block; the same layout facts on an object resumed at one symbolic cut (13 templates W=3 (5)): containment, first-line order, header order / own-line / trimming, nesting of From/To/CSeq/Call-ID/Contact/PAI sub-fields, body and raw-message extents; the same for messages at offsets 2, 7, 300 under all 8 flag sets (symbolic), one-shot or resumed at a symbolic cut; caller arrays of 0-8 headers / 0-4 contacts on a message with three Contact headers (first / last value read through GetContact when they did not fit)",
 		"schedules of more than two pieces are covered through C01 (same observables); longer messages")
 
 	add("C06",
